@@ -15,6 +15,13 @@ Theorem Gen_nameref_table_wf :
 Proof. exact gen_nameref_table_wf. Qed.
 Print Assumptions Gen_nameref_table_wf.
 
+(* Every reference family the property names (ConfigMap / Secret references in pod specs, service
+   accounts, volume claims, autoscaler targets, ingress backends, role bindings, StatefulSet service
+   names, storage / priority / ingress classes) has its row in the table. *)
+Theorem Gen_nameref_covers_named_rules : forallb (rule_present gen_nameref_raw) named_rules = true.
+Proof. exact gen_covers_named_rules. Qed.
+Print Assumptions Gen_nameref_covers_named_rules.
+
 (* The namespace field specs can reach identity fields only through metadata/name. *)
 Theorem Gen_namespace_table_ok : forallb ns_spec_ok gen_namespace_fs = true.
 Proof. exact gen_namespace_table_ok. Qed.
@@ -37,7 +44,9 @@ Print Assumptions Gen_name_suffix_table.
 Theorem C03_history_grows :
   forall cs nonstr (l : list rename_step) (r r' : resource),
     forallb step_ok l = true -> wf_res r -> gen_apply_steps cs nonstr l r = Ok r' ->
-    wf_res r' /\ exists ext, history cs r' = (history cs r ++ ext)%list.
+    wf_res r' /\ (exists ext, history cs r' = (history cs r ++ ext)%list) /\
+    get_kind (r_node r') = get_kind (r_node r) /\
+    get_api_version (r_node r') = get_api_version (r_node r).
 Proof. exact gen_history_prefix. Qed.
 Print Assumptions C03_history_grows.
 
@@ -52,6 +61,21 @@ Theorem C03_history_inv :
        (exists id rest, p = id :: rest /\ id_name id = get_name (r_node r))).
 Proof. exact gen_history_inv. Qed.
 Print Assumptions C03_history_inv.
+
+(* The bridge to candidate selection: a resource that entered the build fresh either was never renamed
+   (no previous id, same name: references to it are already right), or the first two sieves of
+   selectReferral accept it for its ORIGINAL name, for every rule row that selects its original
+   group / version / kind. *)
+Theorem C03_original_referent_findable :
+  forall cs nonstr (l : list rename_step) (r r' : resource),
+    forallb step_ok l = true -> wf_res r -> ptriples r = [] -> gen_apply_steps cs nonstr l r = Ok r' ->
+    exists c, view cs r' = Ok c /\
+      ((c_prev c = [] /\ c_name c = get_name (r_node r)) \/
+       (prev_name_matches (get_name (r_node r)) c = true /\
+        forall tg, gvk_is_selected (gvk_of (get_api_version (r_node r)) (get_kind (r_node r)) false) tg = true ->
+                   prev_id_selected_by tg c = true)).
+Proof. exact original_referent_findable. Qed.
+Print Assumptions C03_original_referent_findable.
 
 (* ================= candidate selection ================= *)
 
